@@ -435,9 +435,19 @@ def digest_runs(pid, seed, batch, nruns, tier="quick"):
     engine.setup()
     ctx = Ctx(tier)
     out = []
+    enum_jobs = engine.jobs(tier, seed) if getattr(engine, "ENUM_ONLY", False) else None
     for r in range(nruns):
         tape = Tape(derive_seed(seed, pid, batch, r))
-        run_one(engine, tape, ctx, None)
+        item = None
+        if enum_jobs:
+            # an engine that only runs enumerated items: a fixed spread of items over its jobs
+            import itertools
+
+            job = enum_jobs[(batch + r * 7) % len(enum_jobs)]
+            item = next(itertools.islice(engine.items(job), r % 5, None), None)
+            if item is None:
+                continue
+        run_one(engine, tape, ctx, item)
         out.append(tape.digest())
     return out
 
